@@ -122,6 +122,11 @@ func cmdReplay(args []string) int {
 		fmt.Fprintln(os.Stderr, res.Error)
 		return 2
 	}
+	if plan.Race {
+		// run under the race build (./check replay does that); the report goes to stderr / GORACE log
+		fmt.Println("race plan replayed; the data-race report, if any, is on stderr")
+		return 0
+	}
 	if plan.Violation != nil {
 		if v := hasViolation(res.Violations, plan.Violation.Property, plan.Violation.Oracle); v != nil {
 			fmt.Printf("REPRODUCED property=%s oracle=%s: %s\n", v.Property, v.Oracle, v.Detail)
@@ -149,7 +154,9 @@ func cmdWorker(args []string) int {
 	budget := fs.Duration("budget", 60*time.Second, "")
 	maxRuns := fs.Int("max-runs", 1<<30, "")
 	replays := fs.String("replays", filepath.Join(verifDir, "replays"), "")
+	raceLog := fs.String("race-log", "", "GORACE log_path prefix (race build, free mode)")
 	fs.Parse(args)
+	raceOff := int64(0)
 	deadline := time.Now().Add(*budget)
 	profiles := propertyProfiles[*prop]
 	if len(profiles) == 0 {
@@ -172,6 +179,38 @@ func cmdWorker(args []string) int {
 		_, res := executePlan(plan, false, false)
 		if run%*of == *idx && run < 3**of {
 			res.Sample = samplePlan(plan)
+		}
+		if *raceLog != "" {
+			// free mode on the race build: only data races are reported, nothing else is judged
+			res.Violations = nil
+			logFile := fmt.Sprintf("%s.%d", *raceLog, os.Getpid())
+			if b, err := os.ReadFile(logFile); err == nil && int64(len(b)) > raceOff {
+				goat, other := parseRaceLog(string(b[raceOff:]))
+				raceOff = int64(len(b))
+				res.RaceOther = other
+				for _, g := range goat {
+					key := "race/" + g.Pair
+					v := &Violation{Property: "C08", Oracle: "data-race", Shape: g.Pair, Detail: "data race between goroutines of the application:\n" + g.Text}
+					res.Violations = append(res.Violations, v)
+					if !reported[key] {
+						reported[key] = true
+						plan.Violation = v
+						plan.Race = true
+						os.MkdirAll(*replays, 0o755)
+						path := filepath.Join(*replays, fmt.Sprintf("C08-race-%s-%x.json", sanitize(g.Pair), runSeed))
+						if writePlan(path, plan) == nil {
+							res.PlanFile = path
+						}
+					}
+				}
+			}
+			if err := enc.Encode(res); err != nil {
+				return 2
+			}
+			if res.Error != "" {
+				return 2
+			}
+			continue
 		}
 		// violations of the target property: minimise and write a replay file (once per oracle+shape)
 		for _, v := range res.Violations {
